@@ -224,7 +224,18 @@ pub struct Views {
     pub store: VStore,
     pub clusters: BTreeMap<String, VCluster>,
     pub proxies: BTreeMap<String, VProxy>,
+    pub infos: BTreeMap<String, VInfo>,
     pub epoch: u64,
+    /// result of the broker's own consistency check (true = it found nothing)
+    pub broker_check_ok: bool,
+}
+
+#[derive(Debug, Clone, PartialEq, Eq, Serialize, Deserialize)]
+pub struct VInfo {
+    pub name: String,
+    pub node_number: usize,
+    pub node_number_with_slots: usize,
+    pub is_migrating: bool,
 }
 
 // ---------------------------------------------------------------------------
@@ -613,8 +624,16 @@ impl Sim {
                 proxies.insert(addr.clone(), v);
             }
         }
+        let mut infos = BTreeMap::new();
+        for name in store.clusters.keys() {
+            if let Ok(Some(i)) = self.rt.block_on(self.svc.get_cluster_info_by_name(name)) {
+                let v: VInfo = serde_json::from_value(serde_json::to_value(&i).expect("ser")).expect("VInfo");
+                infos.insert(name.clone(), v);
+            }
+        }
         let epoch = self.rt.block_on(self.svc.get_epoch()).expect("get_epoch");
-        Views { store, clusters, proxies, epoch }
+        let broker_check_ok = matches!(self.rt.block_on(self.svc.check_metadata()), Ok(None));
+        Views { store, clusters, proxies, infos, epoch, broker_check_ok }
     }
 
     /// Resolve the operands of `op` against the current state.
